@@ -23,6 +23,9 @@
 EXTENDS PdbText
 
 CONSTANTS TerOnModelChange, CifChargeVerbatim, MaxAtoms,
+          TerChainPadded,    \* TRUE = required: the chain column of a TER record is one character wide even for a
+                             \* blank chain id; FALSE = as first implemented (chain text written verbatim)
+          BlankSecondChain,  \* TRUE: the second chain of the structural tables has a blank identifier (PDB only)
           ShapeLevel     \* 0: no one-atom shape tables, 1: a covering selection, 2: the full product
 
 VARIABLES orig,      \* the frame the path starts from: [fmt, rows]
@@ -36,7 +39,14 @@ vars == <<orig, path, frame, src, txt, cif, pc, i, open, lastModel, lastChain, l
 
 \* ------------------------------------------------------------------ input domain
 ChA == <<"A">>
-ChB == <<"B">>
+ChB == IF BlankSecondChain THEN <<>> ELSE <<"B">>
+NoChain == <<"#">>         \* last_chain_id = None (a blank chain id is the EMPTY text, which is not None)
+HasBlankChain(t) == \E k \in 1..Len(t) : t[k].chain = <<>>
+\* the TER record as the writer formats it
+FormatTerUnpadded(serial, a) ==
+  LJust(<<"T","E","R">> \o Blanks(3) \o RJust(IntText(serial), 5) \o Blanks(6) \o RJust(a.resn, 3) \o <<Sp>>
+        \o a.chain \o RJust(IntText(a.resseq), 4) \o a.icode, LineWidth)
+TerText(serial, a) == IF TerChainPadded THEN FormatTer(serial, a) ELSE FormatTerUnpadded(serial, a)
 Base(model, chain, k) ==
   [ rec |-> KwATOM, serial |-> k, name |-> <<"C","4","'">>, alt |-> <<>>, resn |-> <<"G">>, chain |-> chain,
     resseq |-> k, icode |-> <<>>, x |-> 1000 * k, y |-> -1, z |-> 12345, occ |-> 100, b |-> 1234,
@@ -83,10 +93,11 @@ Paths(fmt) == IF fmt = "pdb" THEN { <<"write_pdb", "read_pdb">>,
 Init ==
   /\ \E t \in Tables, fmt \in {"pdb", "cif"} :
        /\ \E p \in Paths(fmt) :
+            /\ HasBlankChain(t) => fmt = "pdb" /\ p = <<"write_pdb", "read_pdb">>   \* blank ids exist in PDB text only
             /\ orig = [fmt |-> fmt, rows |-> [k \in 1..Len(t) |-> AsRow(t[k], fmt)], path |-> p]
             /\ path = p
   /\ frame = [fmt |-> orig.fmt, rows |-> orig.rows] /\ src = <<>> /\ txt = <<>> /\ cif = <<>>
-  /\ pc = "next" /\ i = 0 /\ open = FALSE /\ lastModel = 0 /\ lastChain = <<>> /\ lastRow = <<>>
+  /\ pc = "next" /\ i = 0 /\ open = FALSE /\ lastModel = 0 /\ lastChain = NoChain /\ lastRow = <<>>
 
 \* ------------------------------------------------------------------ write_pdb
 \* _format_pdb_atom_line: int(float(charge)) -> "n+"/"n-" (0 -> blank); otherwise the text, cut to 2
@@ -99,27 +110,27 @@ ForLine(a) == [a EXCEPT !.charge = FormatCharge(a.charge)]
 StartWritePdb ==
   /\ pc = "next" /\ path # <<>> /\ Head(path) = "write_pdb"
   /\ src' = frame.rows /\ txt' = <<>> /\ pc' = "w" /\ i' = 1
-  /\ open' = FALSE /\ lastModel' = 0 /\ lastChain' = <<>> /\ lastRow' = <<>>
+  /\ open' = FALSE /\ lastModel' = 0 /\ lastChain' = NoChain /\ lastRow' = <<>>
   /\ UNCHANGED <<orig, path, frame, cif>>
 
 \* which buffer.write comes next
 Want ==
   IF i <= Len(src) THEN
        IF ~open THEN "MODEL"
-       ELSE IF src[i].model # lastModel THEN (IF TerOnModelChange /\ lastChain # <<>> THEN "TER" ELSE "ENDMDL")
-       ELSE IF lastChain # <<>> /\ src[i].chain # lastChain THEN "TER"
+       ELSE IF src[i].model # lastModel THEN (IF TerOnModelChange /\ lastChain # NoChain THEN "TER" ELSE "ENDMDL")
+       ELSE IF lastChain # NoChain /\ src[i].chain # lastChain THEN "TER"
        ELSE "ATOM"
-  ELSE IF lastChain # <<>> THEN "TER" ELSE IF open THEN "ENDMDL" ELSE "END"
+  ELSE IF lastChain # NoChain THEN "TER" ELSE IF open THEN "ENDMDL" ELSE "END"
 
 EmitModel ==
   /\ pc = "w" /\ Want = "MODEL"
   /\ txt' = Append(txt, FormatModel(src[i].model))
-  /\ open' = TRUE /\ lastModel' = src[i].model /\ lastChain' = <<>> /\ lastRow' = <<>>
+  /\ open' = TRUE /\ lastModel' = src[i].model /\ lastChain' = NoChain /\ lastRow' = <<>>
   /\ UNCHANGED <<orig, path, frame, src, cif, pc, i>>
 EmitTer ==
   /\ pc = "w" /\ Want = "TER"
-  /\ txt' = Append(txt, FormatTer(lastRow.serial + 1, lastRow))
-  /\ lastChain' = <<>>
+  /\ txt' = Append(txt, TerText(lastRow.serial + 1, lastRow))
+  /\ lastChain' = NoChain
   /\ UNCHANGED <<orig, path, frame, src, cif, pc, i, open, lastModel, lastRow>>
 EmitAtom ==
   /\ pc = "w" /\ Want = "ATOM"
@@ -129,7 +140,7 @@ EmitAtom ==
 EmitEndmdl ==
   /\ pc = "w" /\ Want = "ENDMDL"
   /\ txt' = Append(txt, KwENDMDL)
-  /\ open' = FALSE /\ lastChain' = <<>>
+  /\ open' = FALSE /\ lastChain' = NoChain
   /\ UNCHANGED <<orig, path, frame, src, cif, pc, i, lastModel, lastRow>>
 EmitEnd ==
   /\ pc = "w" /\ Want = "END"
